@@ -20,6 +20,9 @@
 #include <Spectra/LinAlg/Arnoldi.h>
 #include <Spectra/LinAlg/Lanczos.h>
 #include <Spectra/Util/TypeTraits.h>
+#include <Spectra/LinAlg/TridiagEigen.h>
+#include <Spectra/LinAlg/UpperHessenbergSchur.h>
+#include <Spectra/LinAlg/UpperHessenbergEigen.h>
 #include <Spectra/MatOp/DenseSymShiftSolve.h>
 #include <Spectra/MatOp/SymShiftInvert.h>
 #undef private
@@ -184,6 +187,68 @@ static std::string wrapper_bk(long n, double shift, const Mat& A)
     return r1 + " " + r2;
 }
 
+// ---- C09 predicates on the implementation
+template <typename S>
+static std::string pred_eig(long n, const Mat& H0)
+{
+    typedef Eigen::Matrix<S, Eigen::Dynamic, Eigen::Dynamic> M; typedef std::complex<S> C; typedef Eigen::Matrix<C, Eigen::Dynamic, Eigen::Dynamic> CM;
+    typedef Eigen::Matrix<C, Eigen::Dynamic, 1> CV;
+    const S eps = std::numeric_limits<S>::epsilon();
+    M H = H0.template cast<S>();
+    for (long j = 0; j < n; j++) for (long i = j + 2; i < n; i++) H(i, j) = S(0);
+    std::ostringstream o; o.precision(5);
+    // (1) TridiagEigen on the symmetric tridiagonal matrix with diagonal / sub-diagonal of H
+    {
+        M T = M::Zero(n, n); T.diagonal() = H.diagonal(); T.diagonal(-1) = H.diagonal(-1); T.diagonal(1) = H.diagonal(-1);
+        M Tin = T; Tin.diagonal(1).setConstant(S(7));   // only the lower part is read
+        try
+        {
+            TridiagEigen<S> e(Tin); M Z = e.eigenvectors(); M D = e.eigenvalues().asDiagonal();
+            S nt = T.norm(); if (nt == S(0)) nt = S(1);
+            o << "T " << (double) ((T * Z - Z * D).norm() / (n * eps * nt)) << ' ' << (double) ((Z.transpose() * Z - M::Identity(n, n)).norm() / (n * eps)) << ' '
+              << ((e.eigenvalues().array() == e.eigenvalues().array()).all() ? 1 : 0) << ' ';
+        }
+        catch (const std::runtime_error&) { o << "T throw 0 1 "; }
+    }
+    S nh = H.norm(); if (nh == S(0)) nh = S(1);
+    // (2) UpperHessenbergSchur
+    try
+    {
+        UpperHessenbergSchur<S> sc(H); M U = sc.matrix_U(), T = sc.matrix_T();
+        bool quasi = true;
+        for (long j = 0; j < n; j++) for (long i = j + 2; i < n; i++) quasi = quasi && T(i, j) == S(0);
+        for (long i = 0; i + 2 < n; i++) quasi = quasi && !(T(i + 1, i) != S(0) && T(i + 2, i + 1) != S(0));
+        bool standard = true;      // every remaining 2x2 block carries a complex pair: ((a - d)/2)^2 + b c < 0
+        for (long i = 0; i + 1 < n; i++) if (T(i + 1, i) != S(0)) { S p = S(0.5) * (T(i, i) - T(i + 1, i + 1)); standard = standard && p * p + T(i + 1, i) * T(i, i + 1) < S(0); }
+        o << "S " << (double) ((U * T * U.transpose() - H).norm() / (n * eps * nh)) << ' ' << (double) ((U.transpose() * U - M::Identity(n, n)).norm() / (n * eps)) << ' '
+          << (quasi ? 1 : 0) << ' ' << (standard ? 1 : 0) << ' ';
+    }
+    catch (const std::runtime_error&) { o << "S throw 0 1 1 "; }
+    // (3) UpperHessenbergEigen
+    try
+    {
+        UpperHessenbergEigen<S> e(H); CV ev = e.eigenvalues(); CM X = e.eigenvectors();
+        S worst = 0, nrm = 0; bool conv = true, finite = true;
+        CM Hc = H.template cast<C>();
+        for (long j = 0; j < n; j++)
+        {
+            worst = std::max(worst, (S) ((Hc * X.col(j) - ev[j] * X.col(j)).norm()));
+            nrm = std::max(nrm, std::abs(X.col(j).norm() - S(1)));
+            finite = finite && ev[j].real() == ev[j].real() && ev[j].imag() == ev[j].imag();
+        }
+        for (long j = 0; j < n; j++)
+        {
+            if (ev[j].imag() == S(0)) continue;
+            // a complex value: the first of an adjacent exact conjugate pair has the positive imaginary part
+            if (ev[j].imag() > S(0)) { conv = conv && j + 1 < n && ev[j + 1] == std::conj(ev[j]) && ev[j + 1].imag() < S(0); j++; }
+            else conv = false;
+        }
+        o << "E " << (double) (worst / (n * eps * nh)) << ' ' << (double) (nrm / (n * eps)) << ' ' << (conv ? 1 : 0) << ' ' << (finite ? 1 : 0);
+    }
+    catch (const std::runtime_error&) { o << "E throw 0 1 1"; }
+    return o.str();
+}
+
 int main()
 {
     std::string line;
@@ -219,6 +284,34 @@ int main()
                 Mat A2 = Y; qr.apply_QY(A2); put(o, A2);
                 Mat A3 = Z; qr.apply_YQ(A3); put(o, A3);
                 Mat A4 = Z; qr.apply_YQt(A4); put(o, A4);
+            }
+            else if (t[0] == "teig")
+            {
+                // teig <n> <diag n> <subdiag n-1>
+                Reader r(t, 1); long n = r.integer(); Vec d = r.vec(n); Vec sd = r.vec(n - 1);
+                Mat T = Mat::Zero(n, n); T.diagonal() = d; if (n > 1) { T.diagonal(-1) = sd; T.diagonal(1).setConstant(123.0); }   // the super-diagonal is not read
+                try { TridiagEigen<double> e(T); put(o, e.eigenvalues()); put(o, e.eigenvectors()); } catch (const std::runtime_error&) { o << "throw"; }
+            }
+            else if (t[0] == "heig")
+            {
+                // heig <n> <H n*n col-major>: scale, the Schur factor T of H/scale (from a separate Schur object running the same code), eigenvalues
+                Reader r(t, 1); long n = r.integer(); Mat H = r.mat(n, n);
+                try
+                {
+                    UpperHessenbergEigen<double> e(H);
+                    double scale = H.cwiseAbs().maxCoeff(); if (scale == 0.0) scale = 1.0;
+                    UpperHessenbergSchur<double> s(H / scale);
+                    put(o, scale); put(o, s.matrix_T());
+                    for (long i = 0; i < n; i++) { put(o, e.eigenvalues()[i].real()); put(o, e.eigenvalues()[i].imag()); }
+                }
+                catch (const std::runtime_error&) { o << "throw"; }
+            }
+            else if (t[0] == "pred_eig")
+            {
+                Reader r(t, 2); long n = r.integer(); Mat H = r.mat(n, n);
+                if (t[1] == "double") o << pred_eig<double>(n, H);
+                else if (t[1] == "float") o << pred_eig<float>(n, H);
+                else o << pred_eig<long double>(n, H);
             }
             else if (t[0] == "pred_bk")
             {
